@@ -87,6 +87,50 @@ def nonmarkov(ctx, drv):
         if diffs:
             ctx.disagreement("esir:" + ",".join(diffs), dict(rep, impl=dict(times=plain["times"][:20], trans=full["transmissions"][:20]),
                                                               model=dict(times=m["times"][:20], trans=m["trans"][:20])))
+    generated_model(ctx, reqs, metas)
+
+
+def generated_model(ctx, reqs, metas):
+    """the Lean code GENERATED from fast_nonMarkov_SIR, _process_trans_SIR_, _process_rec_SIR_ and myQueue
+    (harness/pyevent2lean.py -> Gen/EventSIRGen.lean), run by its own driver with the same delay / duration tables as
+    the implementation.  Compared: times, S, I, R (array mode), the transmission list (full-data mode)."""
+    import fcntl, subprocess, os, json, pyevent2lean
+    lean = common.LEAN
+    os.makedirs(os.path.join(lean, ".audit"), exist_ok=True)
+    with open(os.path.join(lean, ".audit", "genes.lock"), "w") as lock:
+        fcntl.flock(lock, fcntl.LOCK_EX)
+        try:
+            _, errors = pyevent2lean.regenerate()
+        except Exception as e:
+            errors = {"translator": "crashed: %r" % e}
+        if errors:
+            ctx.disagreement("generated-esir:translation", dict(entry="fast_nonMarkov_SIR", errors=errors))
+            return
+        p = common.lake(["build", "driveres"])
+    if p.returncode != 0:
+        ctx.disagreement("generated-esir:build", dict(entry="fast_nonMarkov_SIR", log="\n".join(
+            l for l in (p.stdout + p.stderr).splitlines() if "error" in l)[:1500]))
+        return
+    exe = os.path.join(lean, ".lake", "build", "bin", "driveres")
+    data = "\n".join(json.dumps({k: v for k, v in r.items() if not k.startswith("impl_")}, separators=(",", ":")) for r in reqs) + "\n"
+    q = subprocess.run([exe], input=data, capture_output=True, text=True)
+    lines = q.stdout.splitlines()
+    if q.returncode != 0 or len(lines) != len(reqs):
+        raise RuntimeError("driveres crashed: " + q.stderr[-1000:])
+    for (rep, full, plain, infs), line in zip(metas, lines):
+        g = json.loads(line)
+        ctx.count("nonMarkov:generated-model-runs")
+        if not g.get("ok"):
+            ctx.disagreement("generated-esir-error", dict(rep, generated=g))
+            continue
+        diffs = []
+        if plain["times"] != g["times"] or plain["cols"] != [g["S"], g["I"], g["R"]]:
+            diffs.append("arrays")
+        if full["transmissions"] != g["trans"]:
+            diffs.append("transmissions")
+        if diffs:
+            ctx.disagreement("generated-esir:" + ",".join(diffs), dict(rep, impl=dict(times=plain["times"][:20], trans=full["transmissions"][:20]),
+                                                                        generated=dict(times=g["times"][:20], trans=g["trans"][:20])))
 
 
 def fast_sir(ctx, drv):
